@@ -757,6 +757,12 @@ def adapt_typehints(
     }
     subtypehints = getattr(typehint, "__args__", None)
     typehint_origin = get_typehint_origin(typehint) or typehint
+    if (
+        typehint_origin in tuple_set_origin_types
+        or typehint_origin in sequence_origin_types
+        or typehint_origin in mapping_origin_types
+    ):
+        adapt_kwargs["orig_val"] = None  # the original string stands for the whole value, not for its elements
 
     # Any
     if typehint == Any:
